@@ -25,7 +25,7 @@ RTX_asan-nosba :=
 ASANFLAGS := -fsanitize=address,undefined -fno-sanitize-recover=all -fno-omit-frame-pointer \
              -fsanitize-coverage=trace-pc-guard -fsanitize-coverage-ignorelist=simrt/cov_ignorelist.txt
 # fine-*: the tsan pass also instruments plain memory accesses (they become simulation points)
-FINEPASS := -fno-inline -fsanitize=thread -mllvm -tsan-instrument-func-entry-exit=0 -mllvm -tsan-instrument-memintrinsics=0
+FINEPASS := -fno-inline -fsanitize=thread -mllvm -tsan-instrument-func-entry-exit=0
 VARIANTS := sim-default sim-tiny fine-default fine-tiny asan-default asan-nosba
 FLAGS_sim-default := $(TSANPASS)
 FLAGS_sim-tiny := $(TSANPASS) $(TINY)
